@@ -82,7 +82,7 @@ MUTANTS: list[tuple[str, str, str, str, list[str]]] = [
     ("c02-pad-ff", "types/structure.py", "stream.write(b\"\\x00\" * align_pad)", "stream.write(b\"\\xff\" * align_pad)", ["C02.R1"]),
     ("c06-read-typechange", "bitbuffer.py", "        if self._remaining == 0 or self._type != field_type:\n            if field_type.size is None:\n                raise ValueError(\"Reading", "        if self._remaining == 0:\n            if field_type.size is None:\n                raise ValueError(\"Reading", ["C06.R1"]),
     ("c06-no-straddle", "bitbuffer.py", "        if bits > self._remaining:\n            raise ValueError(\"Reading straddled bits is unsupported\")\n\n", "", ["C06.R2"]),
-    ("c06-unsigned-flush", "bitbuffer.py", "if _is_signed(self._type) and value >> (self._type.size * 8 - 1):", "if False:", ["C06.R5", "C01.R6"]),
+    ("c06-unsigned-flush", "bitbuffer.py", "if _is_signed(self._type) and value >> (self._type.size * 8 - 1) == 1:", "if False:", ["C06.R5", "C01.R6"]),
     ("c06-mask", "bitbuffer.py", "v = self._buffer & ((1 << bits) - 1)", "v = self._buffer & ((1 << self._remaining) - 1)", ["C06.R6"]),
     # ---- C07 / C09 / C11
     ("c07-no-clamp", "types/base.py", "num = max(0, cls.num_entries.evaluate(context))", "num = cls.num_entries.evaluate(context)", ["C07.R1"]),
